@@ -88,6 +88,25 @@ def generate():
               'fingerprint: [level, category or "default", message().left(N)]')
     need(re.search(r'return QString::fromUtf8\(QJsonDocument\(event\)\.toJson\(QJsonDocument::Compact\)\);', f), 'compact serialisation of the event')
 
+    # the attribute store the formatter reads (SentryDefs.apply_op / look_last): setAttribute and updateAttributes REPLACE the value
+    # of a name (QHash::insert), setAttributes assigns, removeAttribute removes, attribute()/hasAttribute() read the one value;
+    # an attribute handler hands its hash to updateAttributes
+    lm = strip_comments(rd('logmessage.h'))
+    def body(fn):
+        return re.sub(r'\s+', ' ', fn_body(lm, fn, 'logmessage.h: ' + fn + '()')).strip()
+    need(body('setAttribute') == 'm_attributes.insert(name, value);', 'LogMessage::setAttribute = m_attributes.insert(name, value)')
+    need(body('setAttributes') == 'm_attributes = attrs;', 'LogMessage::setAttributes = assignment of the hash')
+    need(re.fullmatch(r'#if QT_VERSION >= QT_VERSION_CHECK\(5, 15, 0\) m_attributes\.insert\(attrs\); #else m_attributes\.unite\(attrs\); #endif', body('updateAttributes')),
+         'LogMessage::updateAttributes = m_attributes.insert(attrs) on Qt >= 5.15 (replaces the value of an existing name)')
+    need(body('removeAttribute') == 'm_attributes.remove(name);', 'LogMessage::removeAttribute = m_attributes.remove(name)')
+    need(re.search(r'inline QVariant attribute\(const QString &name\) const \{ return m_attributes\.value\(name\); \}', re.sub(r'\s+', ' ', lm)), 'LogMessage::attribute = m_attributes.value(name)')
+    need(re.search(r'inline bool hasAttribute\(const QString &name\) const \{ return m_attributes\.contains\(name\); \}', re.sub(r'\s+', ' ', lm)), 'LogMessage::hasAttribute = m_attributes.contains(name)')
+    need(re.search(r'inline QVariantHash attributes\(\) const \{ return m_attributes; \}', re.sub(r'\s+', ' ', lm)), 'LogMessage::attributes() returns the hash')
+    need(re.search(r'QVariantHash m_attributes;', lm), 'LogMessage::m_attributes is a QVariantHash')
+    ah = re.sub(r'\s+', ' ', strip_comments(rd('attrhandler.h')))
+    need(re.search(r'bool process\(LogMessage &lmsg\) override \{ lmsg\.updateAttributes\(attributes\(lmsg\)\); return true; \}', ah),
+         'AttrHandler::process = lmsg.updateAttributes(attributes(lmsg))')
+
     out = HDR % 'src/qtlogger/formatters/sentryformatter.cpp, sentryformatter.h'
     out += 'Require Import List NArith.\nImport ListNotations.\nRequire Import QtlVerif.JsonDefs QtlVerif.SentryDefs.\nLocal Open Scope N_scope.\n'
     out += 'Definition src_sentry_cfg : sentry_cfg := {|\n'
